@@ -9,7 +9,8 @@ reference  n' = n + X * n[r] * nu .  Three layers:
                -> every target kind x feed x conversion
   c05.sets     depth 1: ordered pairs / triples / selected 4-tuples combined as ParallelReaction, SeriesReaction,
                ReactionSystem (flat and nested), a ReactionItem and a slice of a set
-  c05.history  depth >= 2: one reaction object reused on several targets, with conversion / basis changes in between
+  c05.history  depth >= 2: one reaction object reused on several targets, with conversion / basis changes in between, incl.
+               changing the basis / conversion of a MEMBER reaction object after the Parallel/Series/System was built
 """
 from __future__ import annotations
 import itertools
@@ -715,6 +716,8 @@ class History(System):
         else: st.rxn = t.ReactionSystem(*rx)
         st.parts = rx
         st.basis = b0
+        st.mbasis = [b0] * len(rx)        # basis of every member reaction object (may be changed AFTER the set was built)
+        st.mX = [None] * len(rx)          # conversion written to a member reaction object after a Parallel/Series set was built
         st.tagmaps = None if tg is None else [rc.tags_of(ri, tg) for ri, r in items]
         if st.tagmaps:
             tm = {}
@@ -744,6 +747,11 @@ class History(System):
         acts += [('setX', 0, x) for x in (0.0, 0.3, 1.0)]
         if len(items) > 1: acts += [('setX', len(items) - 1, 0.5)]
         if kind == 'single': acts += [('basis', 'wt'), ('basis', 'mol')]
+        else:
+            # mutate a MEMBER reaction object after the set / system was built, then apply the set
+            for i in sorted({0, len(items) - 1}):
+                acts += [('mbasis', i, 'wt'), ('mbasis', i, 'mol')]
+            if kind in ('P', 'S'): acts += [('mX', len(items) - 1, 0.75)]
         return acts
 
     def step(self, st, a):
@@ -761,6 +769,20 @@ class History(System):
                 raise Violation('unexpected-exception', f'{type(e).__name__}: {e}', match=dict(match, exc=type(e).__name__))
             st.Xs[i] = x
             return ('setX',)
+        if op == 'mbasis':
+            _, i, b = a
+            try: st.parts[i].basis = b
+            except Exception as e:
+                raise Violation('unexpected-exception', f'{type(e).__name__}: {e}', match=dict(match, exc=type(e).__name__))
+            st.mbasis[i] = b
+            return ('mbasis', tuple(st.mbasis))
+        if op == 'mX':
+            _, i, x = a
+            try: st.parts[i].X = x
+            except Exception as e:
+                raise Violation('unexpected-exception', f'{type(e).__name__}: {e}', match=dict(match, exc=type(e).__name__))
+            st.mX[i] = x
+            return ('mX',)
         if op == 'basis':
             try: st.rxn.basis = a[1]
             except Exception as e:
@@ -781,10 +803,43 @@ class History(System):
         # the reference continues from the running model composition of that target
         tgt.n0 = st.model[k]
         d0 = rc.rxn_digest(st.rxn)
-        outcome = call_reaction(st.rxn, tgt, match)
+        mixed = any(b != st.basis for b in st.mbasis)
+        match['members'] = 'rebased' if mixed else ('X-changed' if any(x is not None for x in st.mX) else 'untouched')
+        if mixed:
+            # a member was moved to another basis after the set was built: the call may refuse (documented RuntimeError of
+            # ReactionSystem); if it returns normally it must still do what the reactions say (both bases give the same stream)
+            try:
+                outcome = call_reaction(st.rxn, tgt, match)
+            except Violation as v:
+                if v.clause == 'unexpected-exception' and v.match.get('exc') == 'RuntimeError' and 'same basis' in v.msg:
+                    raise Rejected('RuntimeError:not all reactions have the same basis', cut=True)
+                raise
+        else:
+            outcome = call_reaction(st.rxn, tgt, match)
         if rc.rxn_digest(st.rxn) != d0:
             raise Violation('reaction-mutated', 'calling the reaction changed the reaction object', match=match)
-        n_ref, exp = check_outcome(tree, tgt, wt, outcome, match, detail=dict(reaction=st.rxn))
+        def judge():
+            try:
+                return check_outcome(tree, tgt, wt, outcome, match, detail=dict(reaction=st.rxn))
+            except Violation as v:
+                # a Parallel/Series set copies the conversions when it is built; whether a later `member.X = x` reaches the set is
+                # not stated by the property: both readings are accepted, anything else (and every balance failure) is a violation
+                if v.clause in ('flows', 'negative-not-rejected', 'spurious-infeasible') and any(x is not None for x in st.mX):
+                    keep = st.Xs; st.Xs = [x if x is not None else y for x, y in zip(st.mX, keep)]
+                    try: tree2 = self._tree(st)
+                    finally: st.Xs = keep
+                    return check_outcome(tree2, tgt, wt, outcome, dict(match, reading='member'), detail=dict(reaction=st.rxn))
+                raise
+        try:
+            n_ref, exp = judge()
+        except Violation as v:
+            if mixed and v.clause in ('flows', 'negative-not-rejected', 'spurious-infeasible', 'mass-balance', 'atom-balance', 'negative-flow'):
+                # one stable signature for "a member was re-based after the set was built and the set then misbehaves"
+                raise Violation('member-rebased', f'after member.basis = ... (members now {st.mbasis}, set labelled {st.basis}) the '
+                                f'{type(st.rxn).__name__} neither raised a documented error nor did what the reactions say: [{v.clause}] {v.msg}',
+                                match=dict(op='apply', kind=kind, tagged=tag != 'none', how='wrong-result' if outcome == 'ok' else 'spurious-infeasible'),
+                                detail=v.detail, residual=v.residual)
+            raise
         if outcome == 'infeasible':
             raise Rejected('InfeasibleRegion', cut=True)
         st.last_moved = moved(tree, st.model[k], wt and tgt.units == 'raw')
@@ -794,7 +849,7 @@ class History(System):
         return (outcome, st.last_moved)
 
     def canon(self, st):
-        return (st.config, rc.rxn_digest(st.rxn), tuple(st.Xs), st.basis,
+        return (st.config, rc.rxn_digest(st.rxn), tuple(rc.rxn_digest(r) for r in st.parts), tuple(st.Xs), st.basis, tuple(st.mbasis), tuple(st.mX),
                 tuple(tuple(fx.r12(x) for x in m.ravel()) for m in st.model),
                 tuple(fx.stream_digest(t_.stream)[3] if t_.stream is not None else None for t_ in st.targets))
 
@@ -802,7 +857,7 @@ class History(System):
         return bool(st.last_moved) and st.n_moves >= 2        # a reaction object really used more than once
 
     def outcome(self, st, a, obs):
-        return repr((st.config[0], st.config[2], st.basis, a[0], obs))
+        return repr((st.config[0], st.config[2], st.basis, a[0], obs, tuple(st.mbasis) if a[0] == 'apply' else None))
 
 
 SYSTEMS = [Single(), Sets(), History()]
